@@ -8,6 +8,10 @@ T  the same (commands, op sequence) through `lean/.lake/build/bin/driver_actors`
 O  the monitor of `c15_impl` (exactly-once / addressee-only / per-sender order / nothing after stop /
    registry + children-map hygiene / child status after a stop / warnings iff dropped), evaluated on the
    live interpreter objects, independent of the model.
+Children that END BY THEMSELVES while they own live descendants (ops fin / fail, families `completion-directed` and
+`completion`, F71): the same tie (model extension `Xsm/Model/ActorsDone.lean`, variant by the ledger: `f71_fixed`) and
+the same monitor, plus the rule `running-under-dropped-finished-ancestor` (a running actor below an actor that finished
+by itself, was dropped from its parent's children map and never stopped: no stop() can reach it).
 """
 from __future__ import annotations
 import json, os, random, subprocess
@@ -255,9 +259,202 @@ def directed_cases():
     return D
 
 
+# ------------------------------------------------------------------------------------------ children that END BY THEMSELVES
+# (F71) A child machine that reaches its top-level final state (status `done`) or fails (`error`) while it owns live
+# descendants.  Nobody calls stop() on it at that moment; who tears its subtree down, and when?  Cases carry
+# `completion: true` (every machine gets a final and a failing state, c15_impl.machine_config) and the ops
+# ["fin", actor] / ["fail", actor].  The ids of invoked children differ between the engines (async: generated,
+# sync: `<parent>:iv`), so these cases are built per flavor.
+def _iv(flavor, parent, src, n):
+    """id of the n-th machine invoked in the run (counting the uuid4 calls of the async engine: these cases use explicit
+    ids for every spawn)"""
+    return f"{parent}:iv" if flavor == "sync" else f"{parent}:{src}:u{n}"
+
+
+def completion_directed(flavor):
+    base = {"kinds": KINDS, "eager": True, "profile": "completion-directed", "completion": True}
+    none = {"r": None, "k1": None, "k2": None}
+    D = []
+
+    def add(name, cmds, ops, invoke=none, **kw):
+        D.append(dict(base, id=f"c15-completion-{name}", cmds=cmds, ops=ops, invoke=invoke, **kw))
+    c = _iv(flavor, "r", "k1", 1)
+    G = ["spawnChild", "k2", "g", "S2"]
+    # 1. the shape of F71: r invokes C, C spawns G, C completes; then the parent's stop()
+    add("invoked-child-completes-owning-a-child", {"C0": [["spawnChild", "k2", "g", None]]},
+        [["cmd", "r", "GOINV"], ["cmd", c, "C0"], ["fin", c], ["stop", "r"]], invoke={"r": "k1", "k1": None, "k2": None})
+    add("invoked-child-fails-owning-a-child", {"C0": [["spawnChild", "k2", "g", None]]},
+        [["cmd", "r", "GOINV"], ["cmd", c, "C0"], ["fail", c], ["stop", "r"]], invoke={"r": "k1", "k1": None, "k2": None})
+    # 2. ... G has a systemId and pending delayed sends: is it still addressable, does it still send, after C is gone
+    #    and after the root is stopped?
+    add("grandchild-still-addressable-and-sending",
+        {"C0": [G, ["spawn", "k2", "h", None, True]], "C1": [["sendTo", "S2", 1, None, None]], "C2": [["sendParent", 2, 36, None], ["sendTo", "S1", 3, 47, "x"], ["sendTo", "S1", 5, 98, "y"]],
+         "C3": [["spawnChild", "k2", "s", "S1"]]},
+        [["cmd", "r", "C3"], ["cmd", "r", "GOINV"], ["cmd", c, "C0"], ["cmd", c + ":g", "C2"], ["fin", c], ["cmd", "r", "C1"], ["adv", 50], ["stop", "r"], ["adv", 50]],
+        invoke={"r": "k1", "k1": None, "k2": None})
+    # 3. three levels below the completing child
+    add("deep-subtree-below-completed-child", {"C0": [G], "C1": [["spawnChild", "k1", "x", "S1"]], "C2": [["spawn", "k2", "y", None, True]]},
+        [["cmd", "r", "GOINV"], ["cmd", c, "C0"], ["cmd", c + ":g", "C1"], ["cmd", c + ":g:x", "C2"], ["fin", c], ["adv", 20], ["stop", "r"]],
+        invoke={"r": "k1", "k1": None, "k2": None})
+    # 4. the completing child was SPAWNED (who watches it? sync non-blocking: the watcher thread; else nobody)
+    for nm, sp in (("spawnChild", ["spawnChild", "k1", "a", "S1"]), ("spawn", ["spawn", "k1", "a", None, False]),
+                   ("spawn-blocking", ["spawn", "k1", "a", None, True]), ("spawnChild-blocking", ["spawnChild", "blocking_k1", "a", None])):
+        add(f"{nm}-child-completes-owning-a-child", {"C0": [sp], "C1": [G], "C2": [["sendTo", "S2", 1, None, None], ["sendTo", "a", 2, None, None]]},
+            [["cmd", "r", "C0"], ["cmd", "r:a", "C1"], ["fin", "r:a"], ["cmd", "r", "C2"], ["adv", 20], ["stop", "r"]])
+        add(f"{nm}-child-fails-then-is-stopped-by-id", {"C0": [sp], "C1": [G], "C2": [["stopChild", "a"]]},
+            [["cmd", "r", "C0"], ["cmd", "r:a", "C1"], ["fail", "r:a"], ["cmd", "r", "C2"], ["adv", 20]])
+    # 5. the grandchild completes first, then the child
+    add("grandchild-then-child-complete", {"C0": [G], "C1": [["spawn", "k1", "z", None, True]]},
+        [["cmd", "r", "GOINV"], ["cmd", c, "C0"], ["cmd", c + ":g", "C1"], ["fin", c + ":g"], ["fin", c], ["stop", "r"]],
+        invoke={"r": "k1", "k1": None, "k2": None})
+    # 6. the invoking state is left (the child is STOPPED, not completed), entered again, the second activation completes
+    c2 = _iv(flavor, "r", "k1", 2)
+    add("second-activation-completes", {"C0": [G]},
+        [["cmd", "r", "GOINV"], ["cmd", c, "C0"], ["cmd", "r", "LEAVE"], ["adv", 10], ["cmd", "r", "GOINV"], ["cmd", c2, "C0"], ["fin", c2], ["adv", 10], ["stop", "r"]],
+        invoke={"r": "k1", "k1": None, "k2": None})
+    # 7. the completing child is itself in its invoking state (its invoked machine is stopped by the exit), and owns a spawned child
+    cc = _iv(flavor, c, "k2", 2)
+    add("completes-from-its-own-invoking-state", {"C0": [G], "C1": [["spawnChild", "k1", "w", None]]},
+        [["cmd", "r", "GOINV"], ["cmd", c, "GOINV"], ["cmd", c, "C0"], ["cmd", cc, "C1"], ["fin", c], ["adv", 10], ["stop", "r"]],
+        invoke={"r": "k1", "k1": "k2", "k2": None})
+    # 8. a completing child that owns nothing; the root itself completes; a finished actor is sent to / completed again
+    add("childless-completions", {"C0": [["spawnChild", "k1", "a", "S1"]], "C1": [["sendTo", "S1", 1, None, None], ["sendTo", "a", 2, 27, None]]},
+        [["cmd", "r", "GOINV"], ["cmd", "r", "C0"], ["fin", c], ["cmd", "r", "C1"], ["fin", "r:a"], ["fin", "r:a"], ["adv", 30], ["fin", "r"], ["adv", 10]],
+        invoke={"r": "k1", "k1": None, "k2": None})
+    return D
+
+
+def gen_completion_case(seed, i, flavor):
+    """root r, a sibling with a systemId, a child C created in one of the five ways (invoke / spawnChild / spawn_, blocking
+    or not), 1-2 grandchildren below C (one possibly invoked by C, sometimes a great-grandchild), delayed sends pending in
+    the subtree, then C - or a grandchild first - ends by itself (fin / fail), then: sends through the systemIds, the clock,
+    stopChild / stop of C, the parent's stop().  No delayed send is due inside the POLL window of a fin op and no two at
+    one instant (the model fires watchers before timers, and an instant at once)."""
+    rng = random.Random(f"c15done/{seed}/{i}")          # the same scenario for both flavors; only the invoked ids differ
+    how = rng.choice(["invoke", "invoke", "invoke", "spawnChild", "spawn", "spawn-blocking", "spawnChild-blocking"])
+    ckind = rng.choice(KINDS)
+    gk_inv = rng.choice(KINDS) if rng.random() < 0.3 else None          # C itself invokes a machine
+    inv = {"r": ckind if how == "invoke" else None, "k1": None, "k2": None}
+    if gk_inv:
+        inv[ckind] = gk_inv
+    n_uuid = [0]
+    cmds, ops = {}, []
+    now = [0]
+    dues = []
+
+    def cmd(actor, acts):
+        name = f"C{len(cmds)}"
+        cmds[name] = acts
+        ops.append(["cmd", actor, name])
+
+    def delay():
+        for _ in range(50):
+            d = 10 * rng.randint(1, 9) + rng.choice([6, 7, 8, 9])
+            if now[0] + d not in dues:
+                dues.append(now[0] + d)
+                return d
+        return None
+
+    def adv(dt):
+        ops.append(["adv", dt])
+        now[0] += dt
+
+    def fin(actor, kind):
+        from .c15_impl import POLL_MS
+        while any(now[0] < d <= now[0] + POLL_MS for d in dues):
+            adv(10)
+        ops.append([kind, actor])
+        now[0] += POLL_MS
+
+    sib = rng.random() < 0.7
+    if sib:
+        cmd("r", [["spawnChild", rng.choice(KINDS), "s", "S1"]])
+    if how == "invoke":
+        ops.append(["cmd", "r", "GOINV"])
+        n_uuid[0] += 1
+        C = _iv(flavor, "r", ckind, n_uuid[0])
+        csid = None
+    else:
+        csid = rng.choice([None, "S3"])
+        sp = {"spawnChild": ["spawnChild", ckind, "a", csid], "spawn": ["spawn", ckind, "a", csid, False],
+              "spawn-blocking": ["spawn", ckind, "a", csid, True], "spawnChild-blocking": ["spawnChild", "blocking_" + ckind, "a", csid]}[how]
+        cmd("r", [sp])
+        C = "r:a"
+    below = []          # (id, systemId)
+    acts = []
+    for eid in rng.sample(["g", "h"], rng.choice([1, 1, 2])):
+        gsid = "S2" if not any(b[1] for b in below) and rng.random() < 0.7 else None
+        k = rng.choice(KINDS)
+        acts.append(rng.choice([["spawnChild", k, eid, gsid], ["spawn", k, eid, gsid, rng.random() < 0.5], ["spawnChild", "blocking_" + k, eid, gsid]]))
+        below.append((f"{C}:{eid}", gsid))
+    cmd(C, acts)
+    if gk_inv:
+        ops.append(["cmd", C, "GOINV"])
+        n_uuid[0] += 1
+        below.append((_iv(flavor, C, gk_inv, n_uuid[0]), None))
+    if rng.random() < 0.35:
+        p = rng.choice(below)[0]
+        cmd(p, [["spawnChild", rng.choice(KINDS), "x", None]])
+        below.append((p + ":x", None))
+    msg = [0]
+
+    def sends(actor, is_below):
+        out = []
+        for _ in range(rng.choice([1, 2, 2, 3])):
+            msg[0] += 1
+            d = delay() if rng.random() < 0.75 else None
+            sid = rng.choice(SENDIDS) if d and rng.random() < 0.5 else None
+            tgts = ["S1", "S2", "S3", "parent"] + (["g", "h"] if actor == C else [])
+            if is_below and rng.random() < 0.4:
+                out.append(["sendParent", msg[0], d, sid])
+            else:
+                out.append(["sendTo", rng.choice(tgts), msg[0], d, sid])
+        return out
+    for b, _sid in rng.sample(below, min(len(below), rng.choice([1, 2]))):
+        cmd(b, sends(b, True))
+    if rng.random() < 0.5:
+        cmd(C, sends(C, False))
+    if rng.random() < 0.3:
+        adv(rng.choice([10, 20]))
+    # ---- somebody ends by itself
+    enders = [C] if rng.random() < 0.7 else [rng.choice(below)[0], C]
+    for e in enders:
+        fin(e, "fail" if rng.random() < 0.25 else "fin")
+        if rng.random() < 0.3:
+            adv(rng.choice([10, 20]))
+    # ---- afterwards
+    for _ in range(rng.randint(1, 4)):
+        r = rng.random()
+        if r < 0.35:
+            msg[0] += 1
+            cmd("r", [["sendTo", rng.choice(["S2", "S2", "S1", "S3", "a", "iv", ckind]), msg[0], None, None]])
+        elif r < 0.6:
+            adv(rng.choice([20, 30, 50]))
+        elif r < 0.7 and how != "invoke":
+            cmd("r", [["stopChild", rng.choice(["a", "S3", ckind])]])
+        elif r < 0.8:
+            ops.append(["stop", rng.choice([C] + [b[0] for b in below])])
+        elif r < 0.9 and how == "invoke":
+            ops.append(["cmd", "r", "LEAVE"])
+        else:
+            cmd("r", [["stopChild", "S2"]])
+    ops.append(["stop", "r"])
+    adv(rng.choice([30, 100]))
+    return {"id": f"c15-completion-{seed}-{i}", "kinds": KINDS, "invoke": inv, "cmds": cmds, "ops": ops, "completion": True,
+            "eager": rng.random() < 0.75, "profile": "completion"}
+
+
 # ------------------------------------------------------------------------------------------ model client
+def f71_fixed():
+    """the model follows the code (`Xsm/Model/ActorsDone.lean`, `SysD.fixed`): while F71 is OPEN in the ledger the async
+    managing task of an invoked machine drops a child that finished by itself WITHOUT stopping it; once the finding has moved
+    to `fixed` it stops it (`await child.stop()` whatever the status)"""
+    return "F71" not in {f["id"] for f in core.load_findings().get("open", [])}
+
+
 def model_lines(case, flavor):
-    head = {"flavor": flavor, "eager": bool(case.get("eager", True)), "invoke": case.get("invoke") or {}, "cmds": case["cmds"]}
+    head = {"flavor": flavor, "eager": bool(case.get("eager", True)), "invoke": case.get("invoke") or {}, "cmds": case["cmds"],
+            "f71fixed": f71_fixed()}
     return ["CASE " + json.dumps(head)] + ["OP " + json.dumps(op) for op in case["ops"]]
 
 
@@ -355,8 +552,10 @@ def c15_actors(tier, seed, n_quick=120, scale=10):
     known = {}
     feats = {"actors": 0, "sends": 0, "ops": 0, "oos_cases": 0, "hang": 0}
     for flavor in ("sync", "async"):
-        for prof in ("directed",) + PROFILES:
-            cases = directed_cases() if prof == "directed" else [gen_case(seed, prof, i) for i in range(n)]
+        for prof in ("directed", "completion-directed") + PROFILES + ("completion",):
+            cases = (directed_cases() if prof == "directed" else completion_directed(flavor) if prof == "completion-directed"
+                     else [gen_completion_case(seed, i, flavor) for i in range(n)] if prof == "completion"
+                     else [gen_case(seed, prof, i) for i in range(n)])
             ir = run_impl_many(flavor, cases)
             mr = run_model_many(cases, flavor)
             for c, (st, res), mobs in zip(cases, ir, mr):
@@ -378,6 +577,10 @@ def c15_actors(tier, seed, n_quick=120, scale=10):
                 feats["ops"] += len(c["ops"])
                 if any(o.get("oos") for o in mobs):
                     feats["oos_cases"] += 1
+                if c.get("completion"):
+                    feats["completions"] = feats.get("completions", 0) + sum(1 for o in c["ops"] if o[0] in ("fin", "fail"))
+                    if not any(o.get("oos") for o in mobs):
+                        feats["completion_cases_tied_to_the_end"] = feats.get("completion_cases_tied_to_the_end", 0) + 1
                 d = diff(res["obs"], mobs)
                 if d is not None:
                     ties.append({"query": "actors", "flavor": flavor, "case": c, "first_difference": d})
@@ -398,6 +601,10 @@ def c15_actors(tier, seed, n_quick=120, scale=10):
             "known_finding_hits": known, "features": feats,
             "what": f"actor trees (depth<=3, fan-out<=3) x op sequences (spawnChild/spawn_/invoke, sendTo/sendParent/forwardTo/escalate "
                     f"with every addressing form, delayed sends, cancel, stopChild, stop) on both engines, {len(PROFILES)} profiles x {n} cases; "
+                    f"children that END BY THEMSELVES (final state / failure) while they own live descendants - invoked, spawned, blocking or "
+                    f"not, then sends through systemIds, stopChild, the parent's stop(): {len(completion_directed('sync'))} directed + {n} generated "
+                    f"cases per engine, {feats.get('completions', 0)} completions, {feats.get('completion_cases_tied_to_the_end', 0)} of those runs "
+                    f"tied to the model to the end (variant F71 {'fixed' if f71_fixed() else 'open'}); "
                     f"{feats['actors']} actors, {feats['sends']} sends/stops observed, known-finding hits {known}"}
 
 
